@@ -200,6 +200,69 @@ def unguarded_rule(fx, ck):
                        % (parent, F.short_span(ungated[0]), stores[0][0]))
 
 
+def borrowed_error_rule(fx, ck, name="R6.borrowed-string-before-clobber"):
+    """Strings the API hands out (every `.error`) point into TsRunContext.last_error and stay valid until the next
+    API call; a host callback may pass such a pointer back (`*error_out = res.error`).  A function that calls
+    foreign code and afterwards reads a C string must therefore read it before it modifies last_error itself:
+    on no path from the foreign call to the `CStr::from_ptr` may last_error be written."""
+    ck.rule(name, "between a call into foreign code and the CStr::from_ptr that reads a string it returned, TsRunContext.last_error is not written", floor=1)
+    CTX = "ffi::TsRunContext"
+    writers = set()
+    for g in fx.fns.values():
+        if g.derived:
+            continue
+        for bl in g.blocks:
+            if bl["c"]:
+                continue
+            for s_ in bl["s"]:
+                if s_[0] == "a" and any(adt == CTX and nm == "last_error" for (adt, v, nm) in F.place_fields(s_[1])):
+                    writers.add(g.parent)
+        for bi, t in g.calls():
+            if t[2] and t[2][0][0] in ("c", "m"):
+                fl = None
+                import exits as E_
+                fl = E_.field_of_ref(g, t[2][0][1][0])
+                if fl and fl[0] == CTX and fl[2] == "last_error" and t[1].get("d", "").endswith(("::take", "::insert", "::replace", "::clear")):
+                    writers.add(g.parent)
+    ck.anchor(len(writers) >= 2, "functions writing TsRunContext.last_error (found %d: %s)" % (len(writers), ", ".join(sorted(w.split("::")[-1] for w in writers))))
+    # anything that can reach a writer clobbers the buffer too
+    callees, callers = fx.callgraph()
+    clob = set()
+    work = list(writers)
+    while work:
+        x = work.pop()
+        if x in clob:
+            continue
+        clob.add(x)
+        work.extend(callers.get(x, ()))
+    n = 0
+    for f in fx.fns.values():
+        if not f.file.startswith("src/ffi") or f.derived:
+            continue
+        foreign = [bi for bi, t in f.calls() if "ptr" in t[1]]
+        reads = [(bi, t) for bi, t in f.calls() if t[1].get("d", "").endswith("CStr::from_ptr")]
+        if not foreign or not reads:
+            continue
+        for fb in foreign:
+            after = f.reachable_from(fb)
+            for rb, rt in reads:
+                if rb not in after:
+                    continue
+                n += 1
+                bad = None
+                for wb, wt in f.calls():
+                    d = wt[1].get("d")
+                    if wb in after and wb != fb and d in fx.fns and fx.fns[d].parent in clob and rb in f.reachable_from(wb):
+                        bad = (wb, wt)
+                        break
+                ck.instance(name, "%s: foreign call -> CStr::from_ptr" % f.parent, F.short_span(rt[6]), ok=bad is None)
+                if bad is not None:
+                    ck.finding(name, "%s/%s/%s" % (name, f.parent, bad[1][1]["d"].split("::")[-1]), F.short_span(bad[1][6]),
+                               "`%s` calls `%s` (which writes TsRunContext.last_error) after calling foreign code and before reading the C string that code returned: "
+                               "if the string is one the API itself handed out (an `.error`), it is freed before it is read" % (f.parent, bad[1][1]["d"]))
+    ck.anchor(n >= 1, "foreign call followed by CStr::from_ptr in src/ffi (found %d)" % n)
+
+
 def run(tier):
     ck = Check("C17", tier, "null-test dominance on MIR CFG for extern \"C\" pointer parameters (helpers, closures, array idiom) + C header parser compared with compiled signatures + RefCell-guard-held-across-hazard dataflow",
                ["aliasing of `&mut TsRunContext` re-borrowed inside native callbacks", "callback re-entrancy protocols",
@@ -216,4 +279,5 @@ def run(tier):
     unguarded_rule(fx, ck)
     import arraylen
     arraylen.rule(fx, ck)
+    borrowed_error_rule(fx, ck)
     return ck.finish()
